@@ -24,7 +24,9 @@ def embedding(which):
     tol = dict(rtol=1e-8, atol=1e-9)
     for method in ('mdft', 'czt'):
         fwd = lambda a, dxi=dx, S=S, shift=shift: pr.focus_fixed_sampling(a, dxi, efl, wvl, odx, S, shift=shift, method=method)
-        bwd = lambda a, S=S, shift=shift: pr.unfocus_fixed_sampling(a, odx, efl, wvl, dx, S, shift=shift, method=method)
+        # unfocus takes its shift in units of ITS output plane (dx); a few samples there, as for the forward direction
+        bshift = (shift[0] / odx * dx, shift[1] / odx * dx)
+        bwd = lambda a, S=S, shift=bshift: pr.unfocus_fixed_sampling(a, odx, efl, wvl, dx, S, shift=shift, method=method)
         if which == 'linear':
             a, b = complex(rng.standard_normal(), rng.standard_normal()), complex(rng.standard_normal(), rng.standard_normal())
             check('focus-linear-' + method, bool(np.allclose(fwd(a * f + b * g), a * fwd(f) + b * fwd(g), **tol)))
@@ -37,7 +39,7 @@ def embedding(which):
         elif which == 'transpose':
             St, sht = (S[1], S[0]), (shift[1], shift[0])
             check('focus-transpose-' + method, bool(np.allclose(fwd(f.T, S=St, shift=sht), fwd(f).T, **tol)))
-            check('unfocus-transpose-' + method, bool(np.allclose(bwd(f.T, S=St, shift=sht), bwd(f).T, **tol)))
+            check('unfocus-transpose-' + method, bool(np.allclose(bwd(f.T, S=St, shift=(bshift[1], bshift[0])), bwd(f).T, **tol)))
         elif which == 'all-pass-mask':
             # a mask that transmits everything over the whole band: N_fpm dx_fpm = lambda f / dx on each axis
             q = int(rng.integers(1, 3))
